@@ -136,58 +136,56 @@ example : HeapChOk [{ ty := .noteOn, ch := 1, time := 0, note := 60, vel := 90 }
 
 /-! ### get_interleaved_message_pairings -/
 
-/-- FINDING (hand model ≠ code): the table of pairings has channels but not a single pairing — every message of a listed type
-    is a note-off that closes nothing.  There `get_interleaved_message_pairings` (and `equals`) raise IndexError
-    (`has_next` starts as `len(channel_pairings_list) > 0`), while the hand model `interleaved` returns `[]`. -/
+/-- generated `get_interleaved_message_pairings` = hand model `interleaved`, for ALL inputs (source after the repair 1462441:
+    `has_next = any(channel_cur_index[i] < channel_max_index[i] …)`).  It sorts `_messages` (linked sort), only adds objects to the
+    heap, and the returned list, read through the final heap, is the model's list.  Any heap and references; no channel `None`. -/
+theorem interleaved_eq (h : Heap) (refs : List Nat) (types : Option (List MType)) (std : Int) (impute : Bool)
+    (hr : RefsOk h refs) (hc : HeapChOk h) :
+    ∃ h' out, Gen.Abs2.getInterleavedMessagePairings h refs types std impute = .ok (h', sortRefs h refs, out) ∧
+      (∃ x, h' = h ++ x) ∧
+      out.map (fun x => (x.1, deref h' x.2)) = SCoda.interleaved (types.getD notePairTypes) std impute (deref h refs) := by
+  have key : ∀ ts : List MType,
+      ∃ h' out, Gen.Abs2.getInterleavedMessagePairings h refs (some ts) std impute = .ok (h', sortRefs h refs, out) ∧
+        (∃ x, h' = h ++ x) ∧ out.map (fun x => (x.1, deref h' x.2)) = SCoda.interleaved ts std impute (deref h refs) := by
+    intro ts
+    obtain ⟨h', out, h1, h2, h3, _⟩ := gip_spec h refs ts std impute hr hc
+    exact ⟨h', out, h1, h2, h3⟩
+  cases types with
+  | none => rw [gip_none]; exact key _
+  | some ts => exact key ts
+
+/-- FORMER FINDING (repaired in the source, commit 1462441): the table of pairings has channels but not a single pairing — every
+    message of a listed type is a note-off that closes nothing.  There `get_interleaved_message_pairings` (and `equals`) used to
+    raise IndexError (`has_next` started as `len(channel_pairings_list) > 0`), while the hand model `interleaved` returns `[]`. -/
 def ChannelsWithoutPairings (types : List MType) (std : Int) (imp : Bool) (a : List Msg) : Prop :=
   pairings types std imp a ≠ [] ∧ ((pairings types std imp a).map (fun c => c.2.length)).sum = 0
 
 instance (types : List MType) (std : Int) (imp : Bool) (a : List Msg) : Decidable (ChannelsWithoutPairings types std imp a) := by
   unfold ChannelsWithoutPairings; infer_instance
 
-/-- generated `get_interleaved_message_pairings` = hand model `interleaved` — except on `ChannelsWithoutPairings`, where the
-    generated code (like the real one) raises IndexError.  It sorts `_messages` (linked sort), only adds objects to the heap,
-    and the returned list, read through the final heap, is the model's list.  Any heap and references; no channel `None`. -/
-theorem interleaved_eq (h : Heap) (refs : List Nat) (types : Option (List MType)) (std : Int) (impute : Bool)
-    (hr : RefsOk h refs) (hc : HeapChOk h) :
-    (¬ ChannelsWithoutPairings (types.getD notePairTypes) std impute (deref h refs) →
-      ∃ h' out, Gen.Abs2.getInterleavedMessagePairings h refs types std impute = .ok (h', sortRefs h refs, out) ∧
-        (∃ x, h' = h ++ x) ∧
-        out.map (fun x => (x.1, deref h' x.2)) = SCoda.interleaved (types.getD notePairTypes) std impute (deref h refs)) ∧
-    (ChannelsWithoutPairings (types.getD notePairTypes) std impute (deref h refs) →
-      Gen.Abs2.getInterleavedMessagePairings h refs types std impute = .error .indexError) := by
-  have key : ∀ ts : List MType,
-      (¬ ChannelsWithoutPairings ts std impute (deref h refs) →
-        ∃ h' out, Gen.Abs2.getInterleavedMessagePairings h refs (some ts) std impute = .ok (h', sortRefs h refs, out) ∧
-          (∃ x, h' = h ++ x) ∧ out.map (fun x => (x.1, deref h' x.2)) = SCoda.interleaved ts std impute (deref h refs)) ∧
-      (ChannelsWithoutPairings ts std impute (deref h refs) →
-        Gen.Abs2.getInterleavedMessagePairings h refs (some ts) std impute = .error .indexError) := by
-    intro ts
-    refine ⟨?_, fun hb => gip_error h refs ts std impute hr hc hb⟩
-    intro hn
-    have hdom : pairings ts std impute (deref h refs) = [] ∨
-        0 < ((pairings ts std impute (deref h refs)).map (fun c => c.2.length)).sum := by
-      by_cases he : pairings ts std impute (deref h refs) = []
-      · exact Or.inl he
-      · right
-        apply Nat.pos_of_ne_zero
-        intro hz
-        exact hn ⟨he, hz⟩
-    obtain ⟨h', out, h1, h2, h3, _⟩ := gip_spec h refs ts std impute hr hc hdom
-    exact ⟨h', out, h1, h2, h3⟩
-  cases types with
-  | none => rw [gip_none]; exact key _
-  | some ts => exact key ts
-
-/-- the finding as a predicate on the INPUT: `ChannelsWithoutPairings` holds exactly when some message has a listed type and every
-    message of a listed type is a note-off (`OnlyOrphanOffs`, Lemmas/AbsTie2LI.lean). -/
+/-- the former finding as a predicate on the INPUT: `ChannelsWithoutPairings` holds exactly when some message has a listed type and
+    every message of a listed type is a note-off (`OnlyOrphanOffs`, Lemmas/AbsTie2LI.lean). -/
 theorem channelsWithoutPairings_input (types : List MType) (std : Int) (imp : Bool) (a : List Msg) :
     ChannelsWithoutPairings types std imp a ↔ OnlyOrphanOffs types a :=
   channelsWithoutPairings_iff types std imp a
 
-/-- the finding, concretely: one orphan note-off -/
+/-- on those inputs the repaired code now returns the empty list, like the model -/
+theorem interleaved_onlyOrphanOffs (h : Heap) (refs : List Nat) (types : Option (List MType)) (std : Int) (impute : Bool)
+    (hr : RefsOk h refs) (hc : HeapChOk h) (ho : OnlyOrphanOffs (types.getD notePairTypes) (deref h refs)) :
+    ∃ h', Gen.Abs2.getInterleavedMessagePairings h refs types std impute = .ok (h', sortRefs h refs, []) := by
+  obtain ⟨h', out, h1, _, h3⟩ := interleaved_eq h refs types std impute hr hc
+  have hz := ((channelsWithoutPairings_input (types.getD notePairTypes) std impute (deref h refs)).2 ho).2
+  have hm : SCoda.interleaved (types.getD notePairTypes) std impute (deref h refs) = [] := by
+    unfold SCoda.interleaved
+    simp only [hz]
+    rfl
+  rw [hm] at h3
+  have : out = [] := by simpa using h3
+  exact ⟨h', this ▸ h1⟩
+
+/-- the former failing input, concretely: one orphan note-off -/
 example : ChannelsWithoutPairings notePairTypes 24 true [{ ty := .noteOff, ch := 3, time := 5, note := 60 }] ∧
-    Gen.Abs2.getInterleavedMessagePairings [{ ty := .noteOff, ch := 3, time := 5, note := 60 }] [0] none 24 true = .error .indexError ∧
+    (Gen.Abs2.getInterleavedMessagePairings [{ ty := .noteOff, ch := 3, time := 5, note := 60 }] [0] none 24 true).map (·.2.2) = .ok [] ∧
     SCoda.interleaved notePairTypes 24 true [{ ty := .noteOff, ch := 3, time := 5, note := 60 }] = [] := by decide
 
 example : ¬ ChannelsWithoutPairings notePairTypes 24 true [{ ty := .noteOn, ch := 1, time := 2, note := 60, vel := 9 },
@@ -202,33 +200,16 @@ example : ¬ ChannelsWithoutPairings notePairTypes 24 true [{ ty := .noteOn, ch 
 abbrev eqTypes' (f : EqFlags) : List MType := eqTypes f.ignoreTs f.ignoreKs
 
 /-- generated `equals(other, ignore_channel, ignore_time_signature, ignore_key_signature, ignore_velocity)` = hand model
-    `equalsAbs` (with `PPQN` from the settings), on two sequences whose messages live in one heap: it returns the model's Boolean,
-    sorts both `_messages` (linked sort) and only adds objects to the heap — except where one of the two sequences has
-    `ChannelsWithoutPairings` (FINDING above), where the generated code (like the real one) raises IndexError. -/
+    `equalsAbs` (with `PPQN` from the settings), on two sequences whose messages live in one heap, for ALL inputs (source after the
+    repair 1462441): it returns the model's Boolean, sorts both `_messages` (linked sort) and only adds objects to the heap. -/
 theorem equalsAbs_eq (h : Heap) (self other : List Nat) (f : EqFlags)
     (hs : RefsOk h self) (ho : RefsOk h other) (hc : HeapChOk h) :
-    (¬ ChannelsWithoutPairings (eqTypes' f) Gen.ppqn true (deref h self) →
-     ¬ ChannelsWithoutPairings (eqTypes' f) Gen.ppqn true (deref h other) →
-      ∃ h', Gen.Abs2.equals h self other f.ignoreCh f.ignoreTs f.ignoreKs f.ignoreVel
-        = .ok (h', sortRefs h self, sortRefs h other, SCoda.equalsAbs Gen.ppqn f (deref h self) (deref h other))) ∧
-    (ChannelsWithoutPairings (eqTypes' f) Gen.ppqn true (deref h self) ∨
-     ChannelsWithoutPairings (eqTypes' f) Gen.ppqn true (deref h other) →
-      Gen.Abs2.equals h self other f.ignoreCh f.ignoreTs f.ignoreKs f.ignoreVel = .error .indexError) := by
-  have dom : ∀ a : List Msg, ¬ ChannelsWithoutPairings (eqTypes' f) Gen.ppqn true a →
-      pairings (eqTypes f.ignoreTs f.ignoreKs) Gen.ppqn true a = [] ∨
-        0 < ((pairings (eqTypes f.ignoreTs f.ignoreKs) Gen.ppqn true a).map (fun c => c.2.length)).sum := by
-    intro a hn
-    by_cases he : pairings (eqTypes f.ignoreTs f.ignoreKs) Gen.ppqn true a = []
-    · exact Or.inl he
-    · exact Or.inr (Nat.pos_of_ne_zero (fun hz => hn ⟨he, hz⟩))
-  refine ⟨fun ha hb => ?_, fun hbad => ?_⟩
-  · obtain ⟨h', he⟩ := equals_spec h self other f.ignoreCh f.ignoreTs f.ignoreKs f.ignoreVel hs ho hc (dom _ ha) (dom _ hb)
-    exact ⟨h', he⟩
-  · by_cases ha : ChannelsWithoutPairings (eqTypes' f) Gen.ppqn true (deref h self)
-    · exact equals_error_self h self other _ _ _ _ hs hc ha
-    · rcases hbad with hbad | hbad
-      · exact absurd hbad ha
-      · exact equals_error_other h self other _ _ _ _ hs ho hc (dom _ ha) hbad
+    ∃ h', Gen.Abs2.equals h self other f.ignoreCh f.ignoreTs f.ignoreKs f.ignoreVel
+      = .ok (h', sortRefs h self, sortRefs h other, SCoda.equalsAbs Gen.ppqn f (deref h self) (deref h other)) :=
+  equals_spec h self other f.ignoreCh f.ignoreTs f.ignoreKs f.ignoreVel hs ho hc
+
+/-- the former failing call `a.equals(AbsoluteSequence())` with `a` = one orphan note-off -/
+example : (Gen.Abs2.equals [{ ty := .noteOff, ch := 3, time := 5, note := 60 }] [0] [] false false false false).map (·.2.2.2) = .ok true := by decide
 
 example : (Gen.Abs2.equals [{ ty := .noteOn, ch := 1, time := 0, note := 60, vel := 90 }, { ty := .noteOff, ch := 1, time := 4, note := 60 },
       { ty := .noteOff, ch := 2, time := 4, note := 60 }, { ty := .noteOn, ch := 2, time := 0, note := 60, vel := 70 }]
